@@ -543,6 +543,34 @@ def do_vectors(vec, outp, sd, tier):
     out.close()
 
 
+def boxed_system(rng):
+    """2 (sometimes 3) variables in a box [-b, b], plus 2-4 slabs  lo <= a.x <= lo + w  /  half-planes with coefficients of
+    absolute value <= 3 (rows are factoids a.x + c >= 0)"""
+    n = rng.choice([2, 2, 2, 3])
+    b = rng.choice([3, 4, 5]) if n == 2 else rng.choice([2, 3])
+    rows = []
+    for i in range(n):
+        e = [0] * n
+        e[i] = 1
+        rows.append(e + [b])
+        rows.append([-x for x in e] + [b])
+    plant = [rng.randint(-b, b) for _ in range(n)] if rng.random() < 0.6 else None
+    for _ in range(rng.randint(2, 4)):
+        a = [rng.randint(-3, 3) for _ in range(n)]
+        if not any(a):
+            a[rng.randrange(n)] = rng.choice([-3, -2, 2, 3])
+        if plant is not None:
+            c = -sum(x * y for x, y in zip(a, plant)) + rng.choice([0, 0, 1, 2])
+        else:
+            c = rng.randint(-8, 8)
+        rows.append(a + [c])
+        if rng.random() < 0.35:
+            rows.append([-x for x in a] + [-c + rng.choice([0, 1, 2, 3])])     # the other side of a thin slab
+    box, rest = rows[:2 * n], rows[2 * n:]
+    rng.shuffle(rest)
+    return box + rest if rng.random() < 0.7 else rest + box
+
+
 def do_random(cnt, outp, sd, tier):
     rng = random.Random(sd * 104729 + 1600)
     out = Out(outp)
@@ -550,6 +578,11 @@ def do_random(cnt, outp, sd, tier):
     for i in range(cnt):
         m = rand_system(rng)
         run_system(out, m, "r", rng, 0.2, 0.2, 0.3, 0.25)
+    # boxed integer systems cut by thin slabs: the branch-and-bound tree gets deep and the same variable is split at the same
+    # value in sibling subtrees; every one goes through branch_and_bound (the box lies inside the T-spec's search box)
+    for i in range(max(200, cnt // 3)):
+        m = boxed_system(rng)
+        run_system(out, m, "b", rng, 0.05, 0.05, 1.0, 0.0)
     out.close()
 
 
